@@ -345,6 +345,8 @@ def run(ctx):
         m = r.choice([k for k, v in by_m.items() if len(v) >= 2])
         cs = r.shuffle(by_m[m])[:r.rint(2, 3)]
         ins = [gen.rand_state(r, m, r.rint(1, min(nmax, 2 if m >= 5 else nmax))) for _ in range(r.rint(1, 2))]
+        if len(ins) == 2 and sum(ins[0]) == sum(ins[1]) and r.chance(2, 3):
+            ins[1] = gen.rand_state(r, m, sum(ins[0]) - 1 if sum(ins[0]) > 1 else 2)     # two photon numbers on one engine
         steps = []
         for _ in range(r.rint(3, 6)):
             ci, si = r.below(len(cs)), r.below(len(ins))
@@ -393,17 +395,31 @@ def run(ctx):
                         if name == "MPS":
                             b.set_cutoff(max(1, (sum(ins[si]) + 1) ** (cs[ci].m // 2)))
                         b.set_input_state(sstate)
+                        # outputs with ANOTHER photon number (those of the other inputs of this history, and vacuum):
+                        # amplitude and probability must be exactly zero whatever the engine computed before
+                        foreign = [tuple(x) for x in ins if sum(x) != sum(ins[si])] + [tuple([0] * cs[ci].m)]
+                        foreign += [tuple([sum(ins[si]) + 1] + [0] * (cs[ci].m - 1))]
                         if q == "amplitude":
                             for t, anum, nrm in exp:
                                 a = complex(b.prob_amplitude(BS_(t)))
                                 if not close(a * math.sqrt(nrm), anum, tol * math.sqrt(nrm)):
                                     bad = (t, anum / math.sqrt(nrm), a)
                                     break
+                            for t in (foreign if bad is None else []):
+                                a = complex(b.prob_amplitude(BS_(t)))
+                                if abs(a) > tol:
+                                    bad = (t, 0, a)
+                                    break
                         elif q == "probability":
                             for t, anum, nrm in exp:
                                 pr_ = float(b.probability(BS_(t)))
                                 if abs(pr_ - abs(anum) ** 2 / nrm) > tol:
                                     bad = (t, abs(anum) ** 2 / nrm, pr_)
+                                    break
+                            for t in (foreign if bad is None else []):
+                                pr_ = float(b.probability(BS_(t)))
+                                if abs(pr_) > tol:
+                                    bad = (t, 0, pr_)
                                     break
                         elif q == "distribution":
                             vals = {tuple(kk): float(v) for kk, v in b.prob_distribution().items()}
